@@ -133,9 +133,14 @@ def run(tier="quick", seed=0, repo="/repo"):
                     check_one(rec, name, sc, X, n, k, min_size, oracle, [list(v) for v in order])
                     rec.case((name, n, label), True)
             # malformed arrays
+            okc = list(vs[0]) if vs else list(range(k))
             for label, arr in (("float", np.array([[0.0, float(n)] + [float(n)] * (k - 2)])[:, :k]),
                                ("width", np.arange(k + 1).reshape(1, -1)),
-                               ("3d", np.zeros((1, 1, k), dtype=np.int64))):
+                               ("3d", np.zeros((1, 1, k), dtype=np.int64)),
+                               # not integer arrays either, whatever the container: non-integral numbers in a list / tuple, numeric strings, booleans
+                               ("float-list", [[c + 0.5 for c in okc]]), ("float-tuple", tuple(c + 0.25 for c in okc)),
+                               ("integral-float-list", [[float(c) for c in okc]]), ("str-list", [[str(c) for c in okc]]),
+                               ("bool-array", np.array([[bool(c % 2) for c in range(k)]]))):
                 try:
                     sc.evaluate(arr)
                     rec.violation(f"{name}:malformed:{label}", f"{name}.evaluate accepted a {label} cuts array", "C13.rejects",
@@ -146,7 +151,24 @@ def run(tier="quick", seed=0, repo="/repo"):
                     rec.violation(f"{name}:malformed:{label}:{type(e).__name__}", f"{name}.evaluate raised {type(e).__name__} for a {label} cuts array",
                                   "C13.rejects", {"scorer": name, "X": X, "cuts": arr, "kind": label})
                 rec.case((name, n, label), True)
-    return rec.result(RULE, f"(n, p) in {shapes}, box [-2,n+2]^k, k in 2..4", exhaustive=True)
+    # wrap-around specials on a longer series (n = 120): differences of narrow / unsigned / extreme integers must not wrap past the checks,
+    # and a valid cut held in a narrow type is scored like its int64 twin
+    n, p = 120, 1
+    X = np.round(rng.normal(size=(n, p)) * 3, 1) + (np.arange(n).reshape(-1, 1) // 40)
+    for name, make, k, min_size, oracle in scorers(n, p):
+        if k > 3 or "GCov" in name or "GaussianCovCost" in name:
+            continue
+        sc = make().fit(X)
+        tail = [110] if k == 3 else []
+        specials = [(np.int8, [100] + [-100] + tail[:0]), (np.int64, [5, -2 ** 63 + 2]), (np.uint64, [2 ** 63 + 5, 2 ** 63 + 7]), (np.int8, [0, 60]), (np.uint8, [0, 60]),
+                    (np.int16, [0, 60])] if k == 2 else \
+                   [(np.int8, [100, -100, 110]), (np.int64, [5, 7, -2 ** 63 + 2]), (np.uint64, [2 ** 63 + 5, 2 ** 63 + 7, 2 ** 63 + 9]), (np.int8, [0, 20, 60]),
+                    (np.uint8, [0, 20, 60]), (np.int16, [0, 20, 60])]
+        for dt, c in specials:
+            check_one(rec, name + f"[{np.dtype(dt).name}]", sc, X, n, k, min_size, oracle, [c], dtype=dt)
+            rec.case((name, n, tuple(c), np.dtype(dt).name), True, None)
+    return rec.result(RULE, f"(n, p) in {shapes}, box [-2,n+2]^k, k in 2..4 (non-negative tuples also as uint64 / uint8 arrays); wrap-around specials "
+                            "(int8, uint64, extreme int64) on n = 120", exhaustive=True)
 
 
 def replay(inp, repo="/repo"):
